@@ -71,7 +71,38 @@ def kind_complete(ck, facts, rule="C16.KIND-COMPLETE", crates=CRATES):
     return len(impls)
 
 
+def canonical_vars_shifted(ck, facts, R):
+    """Shared by C16 / C28: the canonical variable a Canonicalizer callback puts in place of an unbound inference variable is met
+    under `outer_binder` binders of the value being canonicalized, so all three callbacks (ty / lifetime / const) shift it in by
+    outer_binder - otherwise a variable inside `for<..> fn(..)` is captured by that inner binder and the solution's own binder is unused."""
+    from kit import params_of_type
+    ck.rule(R, "K5 (siblings): Canonicalizer::fold_inference_{ty,lifetime,const} build the canonical variable of an unbound inference "
+               "variable as BoundVar::new(INNERMOST, position).shifted_in_from(outer_binder) - each of the three")
+    n = 0
+    for kind in ("ty", "lifetime", "const"):
+        key = "<chalk_solve::infer::canonicalize::Canonicalizer as chalk_ir::fold::TypeFolder>::fold_inference_%s" % kind
+        b = need_body(ck, facts, R, key)
+        if not b:
+            continue
+        n += 1
+        ob = params_of_type(b, "DebruijnIndex") or {"outer_binder"}
+        th = facts.thir(key)
+        from kit import let_bound
+        news = [c for c in calls(th, "BoundVar::new")]
+        bv_names = let_bound(th, lambda i: has_call(i, "BoundVar::new"))
+        # the shift is applied to the freshly built BoundVar (not to something else in the function, e.g. an already bound value)
+        shifts = [c for c in calls(th, "shifted_in_from") if c.get("args") and any(x.get("k") == "var" and x.get("n") in ob for x in walk(c["args"][-1]))
+                  and (has_call(c["args"][0], "BoundVar::new") or any(x.get("k") == "var" and x.get("n") in bv_names for x in walk(c["args"][0])))]
+        inst = "Canonicalizer::fold_inference_%s:canonical-variable-shifted-in" % kind
+        if news and shifts:
+            ck.ok(R, inst, "shifted_in_from(outer_binder)")
+        else:
+            ck.violation(R, inst, b.where(), "the canonical variable is built without shifting it in by outer_binder (BoundVar::new: %d, shifts: %d)" % (len(news), len(shifts)))
+    ck.floor(R, "canonicalizer-callbacks", n, 3)
+
+
 def run(ck, facts, tier):
+    canonical_vars_shifted(ck, facts, "C16.CANONICAL-VARS-SHIFTED")
     nimpl = kind_complete(ck, facts)
     ck.floor("C16.KIND-COMPLETE", "folder-impls", nimpl, 11)
 
@@ -236,6 +267,23 @@ def run(ck, facts, tier):
             ck.ok(R, "map_from_canonical:binders-and-value")
         else:
             ck.violation(R, "map_from_canonical:binders-and-value", mf.where(), "both binders and value must be mapped back")
+
+    R = "C16.UNIVERSE-MAP-FAITHFUL"
+    ck.rule(R, "K1: undoing universe compression maps every universe of a result - those of its binders and those of its placeholders - "
+               "through the one function map_universe_from_canonical and nothing else: no min / max / clamp / saturating arithmetic on the "
+               "mapped universe in UniverseMapExt::map_from_canonical (binders and placeholders of one fresh universe must stay together)")
+    mfk = "<chalk_ir::UniverseMap as chalk_solve::infer::ucanonicalize::UniverseMapExt>::map_from_canonical"
+    mfb = need_body(ck, facts, R, mfk)
+    if mfb:
+        th = facts.thir(mfk)
+        adj = [str(c.get("fn", "")).split("::")[-1] for c in calls(th) if str(c.get("fn", "")).split("::")[-1] in
+               ("min", "max", "clamp", "saturating_sub", "saturating_add", "checked_sub", "min_by", "max_by")]
+        maps = [c for c in calls(th, "map_universe_from_canonical")]
+        if maps and not adj:
+            ck.ok(R, "map_from_canonical:binder-universes-mapped-unadjusted", "%d mapping call(s)" % len(maps))
+        else:
+            ck.violation(R, "map_from_canonical:binder-universes-mapped-unadjusted", mfb.where(), "binder universes are adjusted after the mapping (%s) "
+                         "or not mapped at all: variables and placeholders of the same fresh universe are torn apart" % adj)
 
     # ---------------------------------------------------------------- INVERT
     R = "C16.INVERT"
